@@ -134,6 +134,7 @@ def stepModel (s : St) (σ : M.State) (f : List String) (line : String) : St × 
     ({ s with st := some σ' }, match r with
       | .ok (l, t) => s!"ok tot={t} {topStr l}"
       | .error e => errStr e)
+  | "lockcirc" => (s, "-")    -- the DB is made to fail under the query: outside the model (DB reads are atomic there)
   | "voters" =>
     match σ.voters.lookup (natArg f "r") with
     | none => (s, "none")
@@ -148,7 +149,8 @@ def stepSpec (s : St) (h : Hist) (f : List String) (line : String) : St × Strin
   | "qa" =>
     let rnd := natArg f "r"
     (s, "ok " ++ " ".intercalate ((List.range' 1 s.n).map fun a => qaEntry a (onlineAt h rnd a)))
-  | "circ" => (s, match circulation h (natArg f "r") (natArg f "v") with | .ok x => s!"ok {x}" | .error e => errStr e)
+  | "circ" | "lockcirc" =>
+    (s, match circulation h (natArg f "r") (natArg f "v") with | .ok x => s!"ok {x}" | .error e => errStr e)
   | "top" => (s, match topN h (natArg f "r") (natArg f "v") (natArg f "n") with
       | .ok (l, t) => s!"ok tot={t} {topStr l}"
       | .error e => errStr e)
